@@ -394,7 +394,60 @@ def case_tlc_run_edge(case):
     return tlc.case_tlc_run_edge(case)
 
 
-CASE_FUNCS = {"overwrite": case_overwrite, "history": case_history, "project_files": case_project_files, "tlc_run_edge": case_tlc_run_edge}
+_CREATE_SCRIPT = """
+import json, sys, warnings
+warnings.simplefilter("ignore")
+from pathlib import Path
+from glotaran.project import Project
+out = {}
+here = Path(__file__).parent
+Project.create("relproj")
+pf = here / "relproj" / "project.gta"
+out["created_next_to_script"] = pf.exists()
+if pf.exists():
+    pf.write_text(pf.read_text() + chr(10) + "# marker" + chr(10))
+before = pf.read_bytes() if pf.exists() else None
+try:
+    Project.create("relproj")
+    out["second_create"] = "no error"
+except FileExistsError:
+    out["second_create"] = "FileExistsError"
+except Exception as e:
+    out["second_create"] = repr(e)[:200]
+out["unchanged"] = pf.exists() and pf.read_bytes() == before
+print("RESULT " + json.dumps(out))
+"""
+
+
+def case_create_relative(case):
+    """Project.create with a relative folder, called from a script whose folder is not the working directory: the second
+    create must be refused with FileExistsError and leave project.gta untouched (protection must not depend on the cwd)"""
+    import subprocess
+    import sys
+
+    vs = []
+    with tempfile.TemporaryDirectory(prefix="vf-c18-") as d:
+        script_dir, cwd = Path(d) / "scripts", Path(d) / "elsewhere"
+        script_dir.mkdir()
+        cwd.mkdir()
+        if case["cwd"] == "script_folder":
+            cwd = script_dir
+        (script_dir / "s.py").write_text(_CREATE_SCRIPT)
+        env = dict(os.environ, PYTHONPATH=os.pathsep.join(p for p in sys.path if p))
+        p = subprocess.run([sys.executable, str(script_dir / "s.py")], cwd=cwd, env=env, capture_output=True, text=True, timeout=600)
+        line = [l for l in p.stdout.splitlines() if l.startswith("RESULT ")]
+        if not line:
+            return core.ok(key=None, outcome="script-failed", violations=[V("create-relative-script-failed", stderr=p.stderr[-400:])])
+        import json
+
+        out = json.loads(line[0][7:])
+        if out["second_create"] != "FileExistsError" or not out["unchanged"]:
+            vs.append(V("existing-project-file-not-protected/relative-folder", cwd=case["cwd"], **out))
+    return core.ok(key=case["cwd"], outcome=out, violations=vs)
+
+
+CASE_FUNCS = {"overwrite": case_overwrite, "history": case_history, "project_files": case_project_files, "tlc_run_edge": case_tlc_run_edge,
+              "create_relative": case_create_relative}  # fmt: skip
 
 
 def run(run: core.Run):
@@ -443,6 +496,7 @@ def run(run: core.Run):
                     continue
                 pf.append({"kind": kind, "history": [list(x) for x in h]})
     run.map("project_files", pf, chunksize=8)
+    run.map("create_relative", [{"cwd": "elsewhere"}, {"cwd": "script_folder"}])
     try:
         from vf import tlc
 
